@@ -19,7 +19,7 @@ run() { # label target props
 : > $out.tmp
 sel="$*"
 want() { [ -z "$sel" ] || [[ " $sel " == *" $1 "* ]]; }
-for d in seeded/C*-[ABCD]; do
+for d in seeded/C*-[ABCDEF]; do
   m=$(basename $d); p=${m%-*}
   want $m || continue
   grep -q "\"$p\"" spec/properties.json || { echo "| $m | $p | NO-CHECK | 0 | 0 | |" | tee -a $out.tmp; continue; }
